@@ -19,5 +19,7 @@ def main(root):
     from . import interp_fixture
     n = interp_fixture.main(db)
     print('interpreter fixture: %d functions of the toy module evaluate to their stated values' % n)
+    n = interp_fixture.file_fixture(db)
+    print('FILE fixture: %d toy writer/reader pairs (binary correct: composes; binary with a byte-order and a header slip: reported; text: composes)' % n)
     print('engine fixtures ok')
     return 0
